@@ -240,21 +240,16 @@ Definition ipglob_str (o : ipglob) : outcome string :=
   match g_glob o with Some g => Ok g | None => Raise AttributeError end.
 End WithCidrs.
 
-(* ---- an executable IPv4 decomposition used for the correspondence commands (greedy largest aligned block);
-   compared against the real iprange_to_cidrs on every run ---- *)
-Fixpoint best_h (n : nat) (lo hi : Z) : Z :=
-  match n with
-  | O => 0
-  | S k => let h := Z.of_nat n in
-           if (lo mod 2 ^ h =? 0) && (lo + 2 ^ h - 1 <=? hi) then h else best_h k lo hi
-  end.
-
-Fixpoint greedy_cidrs (fuel : nat) (lo hi : Z) : outcome (list (Z * Z)) :=
-  if hi <? lo then Ok []
-  else match fuel with
-       | O => Raise OutOfFuel
-       | S f => let h := best_h 32 lo hi in
-                do r <- greedy_cidrs f (lo + 2 ^ h) hi; Ok ((lo, 32 - h) :: r)
+(* ---- an executable IPv4 decomposition used for the correspondence commands: the aligned blocks of the binary
+   trie that lie inside [lo, hi], maximal ones only, left to right.  Compared against the real iprange_to_cidrs on
+   every run; proved to meet the specification assumed of iprange_to_cidrs in Proofs/C17.v (cover_spec). ---- *)
+Fixpoint cover (n : nat) (base lo hi : Z) : list (Z * Z) :=
+  let size := 2 ^ Z.of_nat n in
+  if (hi <? base) || (base + size - 1 <? lo) then []
+  else if (lo <=? base) && (base + size - 1 <=? hi) then [(base, 32 - Z.of_nat n)]
+  else match n with
+       | O => []
+       | S k => cover k base lo hi ++ cover k (base + 2 ^ Z.of_nat k) lo hi
        end.
 
-Definition to_cidrs_exec (lo hi : Z) : outcome (list (Z * Z)) := greedy_cidrs 70 lo hi.
+Definition to_cidrs_exec (lo hi : Z) : outcome (list (Z * Z)) := Ok (cover 32 0 lo hi).
